@@ -277,6 +277,12 @@ pub fn run(ctx: &Ctx) -> i32 {
             }
         }
     });
+    // the Strategies object as a state machine: the named view is complete, consistent and
+    // round-trips at every state reachable by <= 3 operations
+    super::explore_api(ctx, "state-machine-view", &|tree, game, obj, _, ops| {
+        let mut lengths = 0u64;
+        check_strategy(tree, game, obj, &mut lengths).map_err(|(c, w)| format!("{}: {} after {:?}", c, w, ops))
+    });
     // wider infosets (4 and 6 actions) with dyadic and non-dyadic profiles, truncated at every one of
     // their probabilities: an action exactly at the threshold next to smaller and larger ones
     for k in [4usize, 6] {
